@@ -113,23 +113,22 @@ fn range_step_backwards(
     step: usize,
     end: usize,
 ) -> impl Iterator<Item = usize> {
-    let start = match start {
-        None => end.saturating_sub(1),
-        Some(start) if start >= end as i64 => end.saturating_sub(1),
-        Some(start) if start >= 0 => start as usize,
-        Some(start) => (end as i64 + start).max(0) as usize,
+    // Mirrors Python's slice.indices() for a negative step: both bounds are
+    // clamped into -1..=end - 1 where -1 stands for "before the first item".
+    let end = end as i64;
+    let clamp = |bound: Option<i64>, default: i64| match bound {
+        None => default,
+        Some(bound) if bound < 0 => (end + bound).max(-1),
+        Some(bound) => bound.min(end - 1),
     };
-    let stop = match stop {
-        None => 0,
-        Some(stop) if stop < 0 => (end as i64 + stop).max(0) as usize,
-        Some(stop) => stop as usize,
-    };
-    let length = if stop == 0 {
-        (start + step) / step
+    let start = clamp(start, end - 1);
+    let stop = clamp(stop, -1);
+    let length = if start > stop {
+        (start - stop - 1) as usize / step + 1
     } else {
-        (start - stop + step - 1) / step
+        0
     };
-    (stop..=start).rev().step_by(step).take(length)
+    (0..length).map(move |idx| start as usize - idx * step)
 }
 
 pub fn slice(value: Value, start: Value, stop: Value, step: Value) -> Result<Value, Error> {
@@ -177,7 +176,7 @@ pub fn slice(value: Value, start: Value, stop: Value, step: Value) -> Result<Val
             } else {
                 let chars: Vec<char> = s.chars().collect();
                 Ok(Value::from(
-                    range_step_backwards(start, stop, -step as usize, chars.len())
+                    range_step_backwards(start, stop, step.unsigned_abs() as usize, chars.len())
                         .map(move |i| chars[i])
                         .collect::<String>(),
                 ))
@@ -196,7 +195,7 @@ pub fn slice(value: Value, start: Value, stop: Value, step: Value) -> Result<Val
                 ))
             } else {
                 Ok(Value::from_bytes(
-                    range_step_backwards(start, stop, -step as usize, b.len())
+                    range_step_backwards(start, stop, step.unsigned_abs() as usize, b.len())
                         .map(|i| b[i])
                         .collect::<Vec<u8>>(),
                 ))
@@ -218,7 +217,7 @@ pub fn slice(value: Value, start: Value, stop: Value, step: Value) -> Result<Val
                         .step_by(step as usize)
                         .collect()
                 } else {
-                    range_step_backwards(start, stop, -step as usize, values.len())
+                    range_step_backwards(start, stop, step.unsigned_abs() as usize, values.len())
                         .map(|idx| values[idx].clone())
                         .collect()
                 };
@@ -226,11 +225,21 @@ pub fn slice(value: Value, start: Value, stop: Value, step: Value) -> Result<Val
             }
 
             if step > 0 {
-                let len = obj.enumerator_len().unwrap_or_default();
-                let (start, len) = get_offset_and_len(start, stop, || len);
+                let known_len = obj.enumerator_len();
+                let from_end = start.map_or(false, |x| x < 0) || stop.map_or(false, |x| x < 0);
                 Ok(Value::make_object_iterable(obj, move |obj| {
                     if let Some(iter) = obj.try_iter() {
-                        Box::new(iter.skip(start).take(len).step_by(step as usize))
+                        // Lazy iterables might not know their length.  Bounds that are
+                        // relative to the end then require consuming the iterator first.
+                        if known_len.is_none() && from_end {
+                            let vec: Vec<Value> = iter.collect();
+                            let (start, len) = get_offset_and_len(start, stop, || vec.len());
+                            Box::new(vec.into_iter().skip(start).take(len).step_by(step as usize))
+                        } else {
+                            let (start, len) =
+                                get_offset_and_len(start, stop, || known_len.unwrap_or(usize::MAX));
+                            Box::new(iter.skip(start).take(len).step_by(step as usize))
+                        }
                     } else {
                         Box::new(None.into_iter())
                     }
@@ -240,8 +249,13 @@ pub fn slice(value: Value, start: Value, stop: Value, step: Value) -> Result<Val
                     if let Some(iter) = obj.try_iter() {
                         let vec: Vec<Value> = iter.collect();
                         Box::new(
-                            range_step_backwards(start, stop, -step as usize, vec.len())
-                                .map(move |i| vec[i].clone()),
+                            range_step_backwards(
+                                start,
+                                stop,
+                                step.unsigned_abs() as usize,
+                                vec.len(),
+                            )
+                            .map(move |i| vec[i].clone()),
                         )
                     } else {
                         Box::new(None.into_iter())
